@@ -117,6 +117,7 @@ type Run struct {
 	Cuts            int
 	SyncDrops       int
 	SyncWindows     int
+	LostInFlight    int
 	QuiescentChecks int
 	Reorders        int
 }
@@ -566,6 +567,15 @@ func Exec(c Case) *Run {
 		}
 	}
 	var cliWG sync.WaitGroup
+	waitCalls := func(where string) {
+		done := make(chan struct{})
+		go func() { cliWG.Wait(); close(done) }()
+		select {
+		case <-done:
+		case <-time.After(6 * time.Second):
+			run.Failures = append(run.Failures, "a mutation made through the network machine had not returned 6s after "+where)
+		}
+	}
 opsLoop:
 	for _, op := range c.Ops {
 		p := strings.Split(op, ":")
@@ -589,7 +599,7 @@ opsLoop:
 					h.inflight[i].held = false
 				}
 				h.mu.Unlock()
-				cliWG.Wait()
+				waitCalls("its held reply was let go")
 				h.mu.Lock()
 			}
 			h.mu.Unlock()
@@ -695,7 +705,7 @@ opsLoop:
 				}
 			}
 			h.mu.Unlock()
-			cliWG.Wait()
+			waitCalls("its held reply was let go")
 		case "wait":
 			settle()
 			midCheck("at a settle point inside the scenario (nothing in flight, no sync pending, the server has told what it knows)")
@@ -706,6 +716,12 @@ opsLoop:
 			settle()
 			h.mu.Lock()
 			h.down = true
+			for _, m := range h.inflight {
+				if m.held {
+					// a reply parked on the server is lost with the connection
+					run.LostInFlight++
+				}
+			}
 			h.mu.Unlock()
 			tl.closeAll()
 			select {
@@ -794,7 +810,7 @@ opsLoop:
 		h.heldSync = nil
 	}
 	h.mu.Unlock()
-	cliWG.Wait()
+	waitCalls("the end of the scenario")
 	settle()
 	time.Sleep(20 * time.Millisecond)
 	settle()
@@ -901,6 +917,13 @@ func GenCase(r *rand.Rand) Case {
 				op += ":" + []string{"+", "+", "-"}[r.Intn(3)] + states[r.Intn(4)]
 			}
 			c.Ops = append(c.Ops, "drift", "holdsync", "loc:add:c", op, "wait")
+		case x < 89 && !held && !c.SlowPush:
+			// the connection drops with a reply still on the server (lost in flight) and a push behind it
+			op := "cut"
+			for j, m := 0, r.Intn(3); j < m; j++ {
+				op += ":" + []string{"+", "+", "-"}[r.Intn(3)] + states[r.Intn(4)]
+			}
+			c.Ops = append(c.Ops, "hold", "cli:"+k+":"+s, "loc:add:c", op, "release", "wait")
 		case x < 92 && !held && !c.SlowPush:
 			// the connection drops; the source may move on meanwhile
 			op := "cut"
